@@ -6,7 +6,9 @@ props = [json.loads(l) for l in open(os.path.join(V, 'properties.jsonl'))]
 
 NOTE_COMMON = ("Trusted: go/parser, go/types, go/ssa, go/packages (x/tools v0.29.0, default go toolchain); the Go memory model and the documented "
                "contracts of the wrapped standard-library primitives; the rule tables in /verif/checker. Fails closed: an idiom the rules do not "
-               "recognise, an anchor that no longer resolves, or a tree that does not type-check is reported, never passed silently.")
+               "recognise, an anchor that no longer resolves, or a tree that does not type-check is reported, never passed silently. "
+               "Dependency closure (every check): each function of the module that the examined code calls - in whatever file or package - is itself "
+               "examined by a rule of the same check (helpers through their own helper rule, re-run there), or the check fails.")
 
 CLAIMS = {
  "C06": dict(cat="translation_validation", sec="4 C06 / E6",
@@ -14,8 +16,8 @@ CLAIMS = {
    text="Every function of container/list and container/ring (read from GOROOT on each run) is paired with the fork's function and shown equal modulo generic erasure and alpha-renaming, at the AST level or, failing that, as sets of canonical path summaries; struct declarations and the API surface are compared too. Equal programs behave identically for every operation sequence, which is the property.",
    note="Assumes GOROOT's container/list|ring is the reference the property names. Decides the whole property when all pairs are equal; a pair not shown equal is reported (fails closed)."),
  "C20": dict(cat="other", sec="4 C20",
-   technique="static path tables decided by order abstraction (all total preorders) and interval abstraction over go/ssa path summaries",
-   text="Min/Max/Clamp/Clamp01/Compare/Less/Abs are decided for every argument value at once by evaluating their path conditions under every total preorder of the compared values; Digits10 by turning its paths into magnitude intervals that must partition [0,2^64) decade by decade, with the widening-before-negation rule that fixes the type-minimum case; DigitsSign10, Sum, Product, Coal, Tern, TernCast, IsZero, Zero, ZeroOf, Ref, DerefZero, IsNil as path tables.",
+   technique="static path tables decided by order abstraction (all total preorders) and interval abstraction over go/ssa path summaries; constraint type-set table (go/types)",
+   text="Min/Max/Clamp/Clamp01/Compare/Less/Abs are decided for every argument value at once by evaluating their path conditions under every total preorder of the compared values; Digits10 by turning its paths into magnitude intervals that must partition [0,2^64) decade by decade, with the widening-before-negation rule that fixes the type-minimum case; DigitsSign10, Sum, Product, Coal, Tern, TernCast, IsZero, Zero, ZeroOf, Ref, DerefZero, IsNil as path tables; and the domain of each numeric helper - the type set of its constraint, flattened through the embedded constraints - is shown to admit every predeclared type of the class the property names, named types included.",
    note="Not decided: wrapping/floating-point semantics of the operators themselves (language), NaN."),
  "C15": dict(cat="other", sec="4 C15",
    technique="static path tables over go/ssa: entry point + adapter + predicate checks, comparisons decided by order abstraction",
@@ -58,12 +60,12 @@ CLAIMS = {
    text="Decides who may write Sorted's backing slice (only Insert in Add, Remove in Remove/RemoveAt), that it is never aliased in or out (NewSorted makes+copies on every path and leaves its argument alone; nothing returns the slice), that positions come from sort.Search over the whole length with the lower-bound predicate !less(s[i],value), that Index validates with == and < Len, that Remove deletes only at a validated position and otherwise returns -1 unchanged, that Get/RemoveAt proceed exactly on 0 <= index < Len and panic exactly outside, that explicit panics are justified, that the Insert/Remove primitives shift by exactly one on the grown slice (C12's rows, re-run here), that every constructor returning a Sorted copies and sorts, and package-wide that a -1 sentinel never reaches an index.",
    note="Not decided: the inductive step to 'sorted after every history' (needs sort.Search's semantics on sorted data, trusted, plus C12's splice clauses)."),
  "C01": dict(cat="other", sec="4 C01",
-   technique="static path-table and flow rules over go/ssa: size-cache coherence, definite assignment of the comparator, descent agreement, traversal-order tables, subtree conservation; abstract execution of every mutator on symbolic in-order sequences (shape.go); null-guard; search decision table",
-   text="Decides the structural necessary conditions of the sorted-multiset property on all paths of avl/avl.go: Len's cache changes exactly with successful insertions/removals, every Tree built in the package has a comparator and keeps it, Clone re-inserts a walk into a fresh tree, add/find/remove agree on which child holds smaller/larger values and test == first, the three walkers visit in their order recursing into themselves and the public walkers/slices dispatch to the matching one, node.remove hands every child subtree of the unlinked node to the result exactly once; and - the inductive step of the property - every mutator is executed abstractly on symbolic in-order sequences: rotations and rebalance return their receiver's sequence, add returns it with the value inserted exactly once on the side the comparison selects, remove returns it without the unlinked node or with the child's removal spliced in exactly on success, popLeftMost splits it into first and rest, Tree.Add/Remove install that at the root; no child/root pointer is dereferenced untested; Contains/find are decided as a table.",
+   technique="static path-table and flow rules over go/ssa: size-cache coherence, definite assignment of the comparator, descent agreement, traversal-order tables, subtree conservation; abstract execution of every mutator on symbolic in-order sequences (shape.go); null-guard; search decision table; who-may-write frame rule over the package; dependency closure with helper rules",
+   text="Decides the structural necessary conditions of the sorted-multiset property on all paths of avl/avl.go: Len's cache changes exactly with successful insertions/removals, every Tree built in the package has a comparator and keeps it, Clone re-inserts a walk into a fresh tree, add/find/remove agree on which child holds smaller/larger values and test == first, the three walkers visit in their order recursing into themselves and the public walkers/slices dispatch to the matching one, node.remove hands every child subtree of the unlinked node to the result exactly once; and - the inductive step of the property - every mutator is executed abstractly on symbolic in-order sequences: rotations and rebalance return their receiver's sequence, add returns it with the value inserted exactly once on the side the comparison selects, remove returns it without the unlinked node or with the child's removal spliced in exactly on success, popLeftMost splits it into first and rest, Tree.Add/Remove install that at the root; no child/root pointer is dereferenced untested; Contains/find are decided as a table; who-may-write (state-frame): every function of the package other than the modelled mutators stores to no value/left/right of an existing node and to no root/count/comparator of a tree, so the helpers, walkers and accessors the mutators call cannot change the tree behind them; typ.Compare, the comparator NewOrdered installs, is re-checked with C20's rule.",
    note="Not decided: the induction itself over all histories (each step is decided, under the tree-shape assumption that distinct access paths denote distinct nodes and a callee changes only the subtree it was handed); comparators inconsistent with ==."),
  "C02": dict(cat="other", sec="4 C02",
-   technique="static typestate/path-table rules over go/ssa: height-refresh-before-escape, rebalance-on-return, height convention by constant propagation, rotation decision table, exact rotation shape by abstract execution (shape.go)",
-   text="Decides that avl/avl.go is the textbook AVL update: after every child store the node's cached height is recomputed before the node flows upwards, every modified subtree root is returned through rebalance, the empty-subtree height is one less than a leaf's, balance() leans exactly at a difference above one, rebalance maps (outer lean, strict sign of the heavy child's lean) to the four rotations which are recognised by structure and whose result shape is computed symbolically ((L n RL) r RR for a left rotation), typ.Max (used by calcHeight) is re-checked here with C20's rule, and rotations re-height the demoted node before the promoted one.",
+   technique="static typestate/path-table rules over go/ssa: height-refresh-before-escape, rebalance-on-return, height convention by constant propagation, rotation decision table, exact rotation shape by abstract execution (shape.go); who-may-write frame rule over the package",
+   text="Decides that avl/avl.go is the textbook AVL update: after every child store the node's cached height is recomputed before the node flows upwards, every modified subtree root is returned through rebalance, the empty-subtree height is one less than a leaf's, balance() leans exactly at a difference above one, rebalance maps (outer lean, strict sign of the heavy child's lean) to the four rotations which are recognised by structure and whose result shape is computed symbolically ((L n RL) r RR for a left rotation), typ.Max (used by calcHeight) is re-checked here with C20's rule, and rotations re-height the demoted node before the promoted one; who-may-write (state-frame): no function of the package other than the modelled ones stores to a height or child field of an existing node.",
    note="Not decided: the induction from these rules to |lean| <= 1 everywhere and the 1.44 log2 depth bound (needs a height/shape abstract domain with an inductive proof; out of reach)."),
  "C03": dict(cat="other", sec="4 C03",
    technique="static pass-table extraction over go/ssa (loops and Range-closures), effect/ownership rules (operands read-only, results fresh), counting-closure tables + the C04 map protocol rules",
@@ -71,7 +73,7 @@ CLAIMS = {
    note="Not decided: element-level equality of results for all operand pairs and histories (follows from the pass table plus Go map / Map.Range semantics, which are assumed, not analysed)."),
  "C10": dict(cat="other", sec="4 C10",
    technique="static lock-region / typestate / dataflow rules over go/ssa path summaries (RWMutex modes, goroutine join before unlock, WaitGroup accounting as polynomial equality, loop tables)",
-   text="Decides lock discipline on the subscriber list, that every send on a subscriber channel is covered by the lock region that excludes close (synchronously, or by joining the goroutines before unlocking), that channels do not migrate between PubSub values with different mutexes, WaitGroup accounting, fan-out completeness and order, close/removal pairing, the timeout-or-delivery dichotomy, the error table, the WithOnly filter (own storage for the clone's list), Sub/SubBuf, RWMutex mode pairing on every path, subIndex's scan, that search/close/splice of Unsub share one write-locked region, and SendTimeout's transfer-iff-true table (C19's row, re-run here). Three genuine violations on the current tree (Pub, PubSlice, WithOnly) are listed in known_findings.json with concrete crashing schedules.",
+   text="Decides lock discipline on the subscriber list, that every send on a subscriber channel is covered by the lock region that excludes close (synchronously, by joining the goroutines before unlocking, or by a launched function that takes the lock itself and re-validates membership before it sends), that channels do not migrate between PubSub values with different mutexes, WaitGroup accounting, fan-out completeness and order, close/removal pairing, the timeout-or-delivery dichotomy, the error table, the WithOnly filter (own storage for the clone's list), Sub/SubBuf, RWMutex mode pairing on every path, subIndex's scan, that search/close/splice of Unsub share one write-locked region, and SendTimeout's transfer-iff-true table (C19's row, re-run here). Three genuine violations on the current tree (Pub, PubSlice, WithOnly) are listed in known_findings.json with concrete crashing schedules.",
    note="Not decided: eventual delivery of Pub/PubSlice, liveness, deadlock freedom (schedules)."),
  "C11": dict(cat="other", sec="4 C11",
    technique="static pairing rules over go/ssa paths: paired map writes, partner-from-hit-lookup deletes, eviction table, ownership/escape",
@@ -87,7 +89,7 @@ CLAIMS = {
    note="Uses the lemma that j=0; j<q*size; j+=size runs q times. ceil(n/size) as arithmetic beyond what the normal forms equate is not decided."),
  "C14": dict(cat="other", sec="4 C14",
    technique="static effect (read-only inputs), origin (fresh results), def-use (callback result used), loop-direction and per-function path tables over go/ssa",
-   text="For the functional helpers the handful of path rows is the definition: early-exit tables (Index*, Contains*, Any, All, maps.KeyOf/ContainsValue/HasKey), Map/MapErr/Filter/Distinct*/Except* rows, Fold/FoldReverse accumulator threading and direction, GroupBy/CountBy bookkeeping, TryGet/SafeGet*/Last/Trim*, maps.Keys/Values/Clear; plus, for all of them, inputs are only read, promised-new results come from make/append-to-fresh on every path, and callback results are used. The loop-direction rule runs over the whole tree; the set constructors Except relies on are re-checked with C03's rows.",
+   text="For the functional helpers the handful of path rows is the definition: early-exit tables (Index*, Contains*, Any, All, maps.KeyOf/ContainsValue/HasKey), Map/MapErr/Filter/Distinct*/Except* rows, Fold/FoldReverse accumulator threading and direction, GroupBy/CountBy bookkeeping, TryGet/SafeGet*/Last/Trim*, maps.Keys/Values/Clear; plus, for all of them, inputs are only read, promised-new results come from make/append-to-fresh on every path, and callback results are used. The loop-direction rule runs over the whole tree; the set constructors Except relies on (returning their freshly filled set on every path) and maps.Set's Has/Add are re-checked with C03's rows, typ.Zero with C20's.",
    note="Not decided: equality with the definitions for all inputs beyond these tables (for GroupBy/CountBy/Distinct they are necessary bookkeeping conditions)."),
 }
 
